@@ -34,7 +34,7 @@ import time
 from typing import Any, Optional
 
 from harness import translate_lex
-from harness.common import REPO, Run, driver_ask, lean_check, use_repo
+from harness.common import REPO, MachineryError, Run, driver_ask, lean_check, use_repo
 
 PID = "C14"
 
@@ -221,6 +221,16 @@ WITNESSES = [
     'def f():\n\treturn 1\n',
     'def f():\n    return 1\n  # dedented comment\n',
     'def f():\n    x = [\n',
+    # TAB = next multiple of 8 (get_indentation_count / getIndentationCount): one block / two blocks
+    'def f():\n\tx = 1\n        return x\n',
+    'if 1:\n    \tx = 1\n\ty = 2\n',
+    'if 1:\n  \tx = 1\n    y = 2\n',
+    'def f():\n    if 1:\n\treturn 1\n    return 2\n',
+    # a newline inside one / two bracket levels, closing at different depths
+    'x = [(1,\n  2),\n 3]\ndef f():\n    return (\n1)\n',
+    # lexer-level error (both must raise), and DEDENT to an indentation that was never pushed
+    'def f():\n    return 1 ?\n',
+    'if 1:\n        x = 1\n    y = 2\n',
 ]
 
 
@@ -281,7 +291,8 @@ def perturb(rng, text: str) -> tuple[str, str]:
     if k == "indent_tabs":
         return k, "\n".join(re.sub(r"^( {4})+", lambda m: "\t" * (len(m.group(0)) // 4), ln) for ln in lines)
     if k == "indent_mixed":
-        return k, "\n".join(re.sub(r"^ {8}", "    \t", ln) if rng.random() < 0.7 else ln for ln in lines)
+        # 8 blanks -> TAB, or 4 blanks + TAB: the same column (8) only if a TAB advances to the next multiple of 8
+        return k, "\n".join(re.sub(r"^ {8}", rng.choice(["\t", "    \t", "  \t"]), ln) if rng.random() < 0.6 else ln for ln in lines)
     if k in ("indent_more", "indent_less"):
         idx = [i for i, ln in enumerate(lines) if ln.strip()]
         if not idx:
@@ -373,8 +384,8 @@ def replay(path: str) -> int:
 
 # fixed case counts per tier (nothing below is decided by the clock; the safety caps are ~5x the measured time)
 COUNTS = {
-    "quick":    {"generated": 30, "perturbed": 120, "file_cap": 500, "py_alarm": 90, "safety_cap_s": 1200},
-    "thorough": {"generated": 250, "perturbed": 1300, "file_cap": 60_000, "py_alarm": 600, "safety_cap_s": 6000},
+    "quick":    {"generated": 20, "perturbed": 80, "file_cap": 260, "py_alarm": 90, "safety_cap_s": 1200},
+    "thorough": {"generated": 150, "perturbed": 600, "file_cap": 5000, "py_alarm": 600, "safety_cap_s": 6000},
 }
 
 
@@ -446,7 +457,16 @@ def main(tier: str) -> int:
         reqs.append({"op": "run", "evs": lx["events"], "n": len(lx["types"]) + 2})
         metas.append((kind, text, lx))
     run.coverage["t_lexing_s"] = round(time.time() - run.t0, 1)
-    answers = driver_ask("drv_lex", reqs, timeout=1800) if (drv_ok and reqs) else []
+    answers = []
+    if reqs:
+        try:
+            # also when Props.C14 no longer builds (a pinned source changed): the driver does not depend on Props/,
+            # and the model's answers are what turns a broken pin into a concrete failing text
+            answers = driver_ask("drv_lex", reqs, timeout=1800)
+        except MachineryError:
+            if drv_ok:
+                raise
+            count("driver_unavailable(build failed)")
     # per text: does the stream end with a newline skipped inside brackets (events only), and does the model
     # explain a C++ rejection by the known defect (fixed base = real Python stream ≠ base as found)?
     skipped_end: dict[str, bool] = {}
